@@ -13,6 +13,9 @@ for mp in sorted(glob.glob(os.path.join(ROOT, "seeded", "C*", "meta.json"))):
     for tier in ("quick", "thorough"):
         d = det.get(tier)
         cells.append("–" if not d else (f"**{d['verdict']}**" if d["verdict"] != "caught" else f"caught: `{d['signature']}`"))
+    for k, d in sorted(det.items()):
+        if ":" in k and d["verdict"] == "caught":
+            cells[1] = (cells[1] if cells[1] != "–" else "") + f" caught by `{d['check']}`: `{d['signature']}`"
     summary = m.get("summary", "").split("—", 1)[-1].strip().replace("|", "\\|")
     rows.append(f"| {m['id']} | {summary[:150]} | {cells[0]} | {cells[1]} |")
 n = len(rows)
@@ -24,7 +27,7 @@ text = [
     "change needs something specific to manifest (see `seeded/<id>/meta.json: needs_to_manifest`).",
     f"`tools/matrix.sh` applies each to /repo, runs the check of its property and undoes it: {caught} of {n} are caught by the quick check.",
     "",
-    "| change | what it does | `./check <Cxx> quick` | thorough (only run where quick missed) |",
+    "| change | what it does | `./check <Cxx> quick` | thorough / other checks (only run where quick missed) |",
     "|---|---|---|---|",
 ] + rows
 p = os.path.join(ROOT, "DESIGN.md")
